@@ -312,6 +312,14 @@ def c08(tier, replay):
     for p in [x for x in live if True][: (10 if q else 60)]:
         sessions.append([{"do": "send", "line": p}, {"do": "go", "line": "go wtime 220 btime 220 movestogo 1"}, {"do": "go", "line": "go wtime 130 btime 130 movestogo 1"},
                          {"do": "isready"}])
+    # queen-heavy legal positions (up to nine queens a side in contact): capture trees explode, the answer is due all the same
+    hp = os.path.join(vcommon.BUILD, "heavy-%d.json" % os.getpid())
+    vcommon.run_harness(h, ["heavy", "--out", hp, "--n", 24 if q else 200, "--queens", 9, "--seed", vcommon.seed()])
+    heavy = json.load(open(hp))
+    os.remove(hp)
+    for fen in heavy:
+        sessions.append([{"do": "send", "line": "position fen " + fen}, {"do": "go", "line": rng.choice(clocks[:3])}, {"do": "isready"}])
+    run.cov["queen_heavy_positions"] = len(heavy)
     # direction spec -> code: every finished game of K+Q / K+R against K (both colours), enumerated by TLC from Chess.tla
     smp = 20 if q else 1
     r = vcommon.tlc("Fam", "Fam_terminal.cfg", env={"FAMILY": "terminal", "SAMPLE": str(smp), "OFFSET": str(vcommon.seed() % smp)},
